@@ -18,6 +18,11 @@ Pairs of runs that differ in exactly ONE dimension are compared:
 plus a few TRUE CLI runs (fresh interpreter, real YAML loader) against the forked run of the same job: a difference
 there is a harness fault (inconclusive), not a lian violation.
 
+Workload (lib/c14_projects.py): hand-written multi-file programs for the seven frontends, generated name-heavy programs,
+nested-object writers (callees adding 4-6 fields to an object one or two field hops from a parameter / this / a returned
+object that already has fields of its own — a probe in the child confirms that the merged field dict really shows up in
+s2space_p3, with a floor), option variants and the repository's corpora.
+
 On a difference the kept files are decoded and the first differing table / row / column is the witness; the mechanism
 signature is `<artefact file stem>:<column or json key>:<dimension>` of the FIRST differing artefact in pipeline
 order (module_symbols, then frontend/, semantic_p1/ … taint/), never a hash; instead of a column the middle part is
